@@ -56,11 +56,11 @@ def main():
                 shdemo = os.path.join("/tmp", "confirm_demo_%s.sh" % mid)
                 open(shdemo, "w").write(txt2)
             sh("cargo build --offline 2>&1 | tail -1", cwd=WT)
-            rc1, out1 = sh("%s bash %s" % (env_bin, shdemo), cwd=WT)
+            rc1, out1 = sh("%s bash %s %s/target/debug/solstat" % (env_bin, shdemo, WT), cwd=WT)
             rec["demo_with_change"] = "fails" if rc1 != 0 else "passes"
             sh("git apply -R %s" % patch, cwd=WT)
             sh("cargo build --offline 2>&1 | tail -1", cwd=WT)
-            rc2, out2 = sh("%s bash %s" % (env_bin, shdemo), cwd=WT)
+            rc2, out2 = sh("%s bash %s %s/target/debug/solstat" % (env_bin, shdemo, WT), cwd=WT)
             rec["demo_without_change"] = "passes" if rc2 == 0 else "fails"
             ok = passed >= 70 and failed == 0 and rec["demo_with_change"] == "fails" and rec["demo_without_change"] == "passes"
             rec["status"] = "confirmed" if ok else "NOT-confirmed"
@@ -70,7 +70,7 @@ def main():
                 shutil.copyfile(patch, os.path.join(dst, "patch.diff"))
                 shutil.copyfile(shdemo, os.path.join(dst, "demo.sh"))
                 m2 = {"id": mid, "property": meta.get("property"), "what": meta.get("what"), "needs": meta.get("needs"),
-                      "demo_cmd": "cargo build --offline in the worktree; SOLSTAT_BIN=<worktree>/target/debug/solstat bash demo.sh (exit 0 = property holds)",
+                      "demo_cmd": "cargo build --offline in the worktree; SOLSTAT_BIN=<worktree>/target/debug/solstat bash demo.sh <worktree>/target/debug/solstat (exit 0 = property holds)",
                       "confirmed_at_repo_commit": head,
                       "ran": ["git apply patch.diff (scratch worktree /tmp/confirm_wt of /repo HEAD %s)" % head,
                               "cargo test --workspace --no-fail-fast --offline -> %s" % rec["suite_with_change"],
